@@ -454,6 +454,26 @@ func c14Run(c *core.Ctx) *core.Result {
 		r.Inconclusive = "materialise dst: " + err.Error()
 		return r
 	}
+	// a destination seeded from a link farm: regular files of the destination
+	// that are further names of files outside the root (cp -al snapshots).
+	// Replacing such a name is fine, writing into the shared inode is not.
+	sharedOutside := map[string]bool{}
+	if hr := core.NewRand(core.Mix(c.Seed, "C14-shared-inode", c.Index)); hr.P(1, 6) {
+		for _, e := range dstT.Entries {
+			if e.Type != tree.File || e.LinkTo != "" || dstT.GroupOf(e.Path) != "" || !hr.P(1, 2) {
+				continue
+			}
+			out := core.Pick(hr, []string{"/outside/a", "/outside/d/b", "/outside/sib/a", "/" + cn + "/sib/a", "/" + cn + "/sib/d/b"})
+			if sharedOutside[strings.TrimPrefix(out, "/")] {
+				continue // one further name per outside file: no link group inside the destination
+			}
+			dp := filepath.Join(dstRoot, filepath.FromSlash(e.Path))
+			if os.Remove(dp) == nil && os.Link(out, dp) == nil {
+				sharedOutside[strings.TrimPrefix(out, "/")] = true
+				r.Count("destination_files_sharing_an_inode_with_the_outside", 1)
+			}
+		}
+	}
 
 	sample := map[string]any{"src_tree": srcT.Lines(), "dst_tree": dstT.Lines(), "src": srcArg, "dst": dstArg, "flags": fl.String()}
 	if usePatterns {
@@ -600,6 +620,19 @@ func c14Run(c *core.Ctx) *core.Result {
 		g := outA.Entries[j]
 		r.Count("outside_entries_compared", 1)
 		d := sameAll(&e, &g)
+		if sharedOutside[e.Path] {
+			// an outside file that had a further name inside dstroot: when
+			// the copy replaces that name the inode loses a link (nlink and
+			// ctime move, the link-group column with them); its bytes,
+			// owner, mode and mtime are not the copy's business
+			var keep []string
+			for _, f := range d {
+				if f != "ctime" && f != "nlink" && f != "linkgroup" && f != "links" {
+					keep = append(keep, f)
+				}
+			}
+			d = keep
+		}
 		if e.Path == dpath {
 			// the destination root itself: its identity, type, mode, owner and xattrs
 			var keep []string
@@ -632,6 +665,9 @@ func c14Run(c *core.Ctx) *core.Result {
 			continue
 		}
 		r.Count("dst_files_traced", 1)
+		if b := dstB.Get(e.Path); b != nil && b.Type == tree.File && b.Ino == e.Ino && bytes.Equal(b.Data, e.Data) && len(sharedOutside) > 0 {
+			continue // a planted further name of an outside file, untouched
+		}
 		if bytes.Contains(e.Data, []byte(c14Marker)) {
 			r.Violate("sentinel-bytes-copied", "src=%q dst=%q [%s]: %s in the destination holds sentinel bytes %q", srcArg, dstArg, fl, e.Path, e.Data)
 			continue
